@@ -25,6 +25,8 @@ CONSTANTS Uris, Texts,
           MaxDisk,          \* environment disk writes/deletes per behaviour
           OnDisk,           \* uris that exist on disk initially (content Disk0)
           InlineOpen, InlineChange, InlineClose,  \* mined: handled inline on the main loop?
+          Outside,          \* uris outside the workspace root (not analysed) until a reload loads a config listing their directory as a library
+          CfgAddsLib,       \* TRUE: the config change delivered by a "cfg" message adds that library directory
           InitOpen,         \* uris already open (text InitText, analysed, diagnostics published) when the behaviour starts
           EnableReindex     \* emmyrc workspace.enableReindex (didSave schedules a debounced full reindex)
 
@@ -57,14 +59,16 @@ VARIABLES script,     \* messages delivered so far
           reloadGen, reloadLock,
           anR, anW, wmR,   \* locks held ACROSS steps: sets of task indexes / index / set
           nDisk,
+          inWs,       \* uris the workspace matcher (wm.match_file_pattern) currently accepts
+          cfgLib,     \* the config file on disk lists the library directory
           inc,        \* incarnation of the file id of a uri: Vfs::remove_file forgets the path<->id mapping, a re-added file gets a NEW FileId
           late,       \* uris closed while no reload was responsible for them (their vfs content is the close handler's business)
           hist        \* replay schedule with the projected state after each step (hidden by VIEW)
 
 vars == <<script, mainBusy, tasks, wmOpen, wmVer, vfs, disk, published, diagTok, wsTok, cfgTok, rxTok,
-          reloadGen, reloadLock, anR, anW, wmR, nDisk, late, inc, hist>>
+          reloadGen, reloadLock, anR, anW, wmR, nDisk, late, inc, inWs, cfgLib, hist>>
 view == <<script, mainBusy, tasks, wmOpen, wmVer, vfs, disk, published, diagTok, wsTok, cfgTok, rxTok,
-          reloadGen, reloadLock, anR, anW, wmR, nDisk, late, inc>>
+          reloadGen, reloadLock, anR, anW, wmR, nDisk, late, inc, inWs, cfgLib>>
 
 Proj(o, v, p, d) == [open |-> o, vfs |-> v, pub |-> p, disk |-> d]
 \* tasks that can take a step (parked at a lock request), and those that became so in a transition:
@@ -95,11 +99,12 @@ Init == /\ script = InitScript(InitOpen) /\ mainBusy = 0 /\ tasks = <<>>
         /\ wmOpen = [u \in Uris |-> IF u \in InitOpen THEN InitText ELSE None]
         /\ wmVer = Cardinality(InitOpen)
         /\ disk = [u \in Uris |-> IF u \in OnDisk THEN Disk0 ELSE Absent]
-        /\ vfs = [u \in Uris |-> IF u \in InitOpen THEN InitText ELSE IF u \in OnDisk THEN Disk0 ELSE Absent]
+        /\ vfs = [u \in Uris |-> IF u \in InitOpen THEN InitText ELSE IF u \in OnDisk \ Outside THEN Disk0 ELSE Absent]
         /\ published = [u \in Uris |-> IF u \in InitOpen THEN InitText ELSE Never]
         /\ diagTok = [u \in Uris |-> [g \in 0..MaxInc |-> 0]] /\ wsTok = 0 /\ cfgTok = 0 /\ rxTok = 0
         /\ reloadGen = 0 /\ reloadLock = 0
         /\ anR = {} /\ anW = 0 /\ wmR = {} /\ nDisk = 0 /\ late = {} /\ inc = [u \in Uris |-> 0]
+        /\ inWs = Uris \ Outside /\ cfgLib = FALSE
         /\ hist = <<>>
 
 \* ---- client behaviour: a well-formed editor -----------------------------------------------------
@@ -117,10 +122,11 @@ Deliver(m) ==
   /\ tasks' = Append(tasks, NewTask(m.kind, m.uri, m.text, Inline(m.kind), 1, 0))
   /\ mainBusy' = IF Inline(m.kind) THEN Len(tasks) + 1 ELSE 0
   /\ hist' = Append(hist, [a |-> "deliver", kind |-> m.kind, uri |-> m.uri, text |-> m.text,
-                           inline |-> Inline(m.kind), woke |-> {Len(tasks) + 1},
+                           inline |-> Inline(m.kind), woke |-> {Len(tasks) + 1}, lib |-> (cfgLib \/ (m.kind = "cfg" /\ CfgAddsLib)),
                            st |-> Proj(wmOpen, vfs, published, disk)])
   /\ UNCHANGED <<wmOpen, wmVer, vfs, disk, published, diagTok, wsTok, cfgTok, rxTok, reloadGen, reloadLock,
-                 anR, anW, wmR, nDisk, late, inc>>
+                 anR, anW, wmR, nDisk, late, inc, inWs>>
+  /\ cfgLib' = (cfgLib \/ (m.kind = "cfg" /\ CfgAddsLib))
 
 ReloadPending == \E j \in 1..Len(tasks) : /\ tasks[j].pc # Done
                                           /\ \/ tasks[j].kind \in {"cfg", "debounce"}
@@ -136,7 +142,7 @@ DiskWrite(u, t) ==
   /\ disk' = [disk EXCEPT ![u] = t] /\ nDisk' = nDisk + 1
   /\ hist' = Append(hist, [a |-> "disk", uri |-> u, text |-> t, st |-> Proj(wmOpen, vfs, published, disk')])
   /\ UNCHANGED <<script, mainBusy, tasks, wmOpen, wmVer, vfs, published, diagTok, wsTok, cfgTok, rxTok,
-                 reloadGen, reloadLock, anR, anW, wmR, late, inc>>
+                 reloadGen, reloadLock, anR, anW, wmR, late, inc, inWs, cfgLib>>
 
 \* ---- lock guards (locks that are only held within one step need no state) -------------------------
 CanAnR == anW = 0
@@ -186,12 +192,12 @@ DocStep(i) == LET t == tasks[i] u == t.uri IN
   \/ /\ t.pc = 1 /\ CanAnR
      /\ tasks' = Goto(tasks, i, IF vfs[u] # Absent THEN 3 ELSE 2)
      /\ UNCHANGED <<wmOpen, wmVer, vfs, published, diagTok, anR, anW, wmR>>
-  \/ /\ t.pc = 2 /\ CanWmR
-     /\ tasks' = Goto(tasks, i, 3)
+  \/ /\ t.pc = 2 /\ CanWmR        \* is_workspace_file: a filtered document is only recorded as open
+     /\ tasks' = [tasks EXCEPT ![i].pc = 3, ![i].snapVer = IF u \in inWs THEN 0 ELSE 1]
      /\ UNCHANGED <<wmOpen, wmVer, vfs, published, diagTok, anR, anW, wmR>>
   \/ /\ t.pc = 3 /\ CanWmW
      /\ wmOpen' = [wmOpen EXCEPT ![u] = t.text] /\ wmVer' = wmVer + 1
-     /\ tasks' = Goto(tasks, i, 4)
+     /\ tasks' = IF t.snapVer = 1 THEN Finish(tasks, i) ELSE Goto(tasks, i, 4)
      /\ UNCHANGED <<vfs, published, diagTok, anR, anW, wmR>>
   \/ /\ t.pc = 4 /\ CanAnW(i)
      /\ vfs' = [vfs EXCEPT ![u] = t.text]
@@ -248,7 +254,7 @@ WatchStep(i) == LET t == tasks[i] u == t.uri IN
      /\ tasks' = Goto(tasks, i, 2)
      /\ UNCHANGED <<wmOpen, wmVer, vfs, published, diagTok, anR, anW, cfgTok>>
   \/ /\ t.pc = 2 /\ CanAnW(i) /\ t.kind = "watch"
-     /\ IF wmOpen[u] = None /\ disk[u] # Absent
+     /\ IF wmOpen[u] = None /\ u \in inWs /\ disk[u] # Absent
         THEN /\ vfs' = [vfs EXCEPT ![u] = disk[u]]
              /\ anW' = i /\ tasks' = [tasks EXCEPT ![i].pc = 3, ![i].gen = inc[u]] /\ UNCHANGED wmR
         ELSE /\ UNCHANGED <<vfs, anW>> /\ wmR' = wmR \ {i} /\ tasks' = Finish(tasks, i)
@@ -311,14 +317,16 @@ ReloadStep(i) == LET t == tasks[i] IN
         ELSE tasks' = Goto(tasks, i, 2) /\ reloadLock' = i
      /\ UNCHANGED <<wmOpen, wmVer, vfs, published, wsTok, anR, anW, wmR>>
   \/ /\ t.pc = 2 /\ CanWmW          \* update_match_state + open-files snapshot
-     /\ tasks' = [tasks EXCEPT ![i].pc = 3, ![i].snapVer = wmVer, ![i].snapFiles = wmOpen]
+     /\ inWs' = IF t.text = "lib" THEN Uris ELSE Uris \ Outside
+     /\ tasks' = [tasks EXCEPT ![i].pc = 3, ![i].snapVer = wmVer,
+                                 ![i].snapFiles = [u \in Uris |-> IF u \in inWs' THEN wmOpen[u] ELSE None]]
      /\ UNCHANGED <<wmOpen, wmVer, vfs, published, wsTok, reloadLock, anR, anW, wmR>>
   \/ /\ t.pc = 3 /\ CanAnW(i)       \* clear_non_std_workspaces
      /\ tasks' = Goto(tasks, i, 4)
      /\ UNCHANGED <<wmOpen, wmVer, vfs, published, wsTok, reloadLock, anR, anW, wmR>>
   \/ /\ t.pc = 4 /\ CanAnW(i)       \* init_analysis: disk files now, open texts from the snapshot
      /\ LET nv == [u \in Uris |-> IF t.snapFiles[u] # None THEN t.snapFiles[u]
-                                   ELSE IF disk[u] # Absent THEN disk[u] ELSE Absent]
+                                   ELSE IF disk[u] # Absent /\ u \in inWs THEN disk[u] ELSE Absent]
             removed == {u \in Uris : vfs[u] # Absent /\ nv[u] = Absent} IN
         /\ vfs' = nv
         /\ published' = [u \in Uris |-> IF u \in removed THEN Empty ELSE published[u]]
@@ -330,14 +338,15 @@ ReloadStep(i) == LET t == tasks[i] IN
         /\ tasks' = ts2 /\ wsTok' = Len(ts2)
      /\ UNCHANGED <<wmOpen, wmVer, vfs, published, reloadLock, anR, anW, wmR>>
   \/ /\ t.pc = 6 /\ CanWmR          \* sync_reloaded_open_files: compare versions
-     /\ IF wmVer = t.snapVer
+     /\ LET cur == [u \in Uris |-> IF u \in inWs THEN wmOpen[u] ELSE None] IN   \* workspace_open_files()
+        IF wmVer = t.snapVer
         THEN tasks' = Goto(tasks, i, 8)
-        ELSE LET acts == [u \in Uris |-> IF t.snapFiles[u] # None /\ wmOpen[u] = None
-                                          THEN (IF disk[u] # Absent THEN "restore" ELSE "remove")
+        ELSE LET acts == [u \in Uris |-> IF t.snapFiles[u] # None /\ cur[u] = None
+                                          THEN (IF u \in inWs /\ disk[u] # Absent THEN "restore" ELSE "remove")
                                           ELSE None] IN
-             IF OpenSet(wmOpen) = {} /\ \A u \in Uris : acts[u] = None
-             THEN tasks' = [tasks EXCEPT ![i].snapVer = wmVer, ![i].snapFiles = wmOpen]   \* loop again
-             ELSE tasks' = [tasks EXCEPT ![i].pc = 7, ![i].nextFiles = wmOpen, ![i].snapVer = wmVer,
+             IF OpenSet(cur) = {} /\ \A u \in Uris : acts[u] = None
+             THEN tasks' = [tasks EXCEPT ![i].snapVer = wmVer, ![i].snapFiles = cur]   \* loop again
+             ELSE tasks' = [tasks EXCEPT ![i].pc = 7, ![i].nextFiles = cur, ![i].snapVer = wmVer,
                                          ![i].actions = acts]
      /\ UNCHANGED <<wmOpen, wmVer, vfs, published, wsTok, reloadLock, anR, anW, wmR>>
   \/ /\ t.pc = 7 /\ CanAnW(i)       \* apply_open_file_sync
@@ -400,6 +409,7 @@ Step(i) ==
         /\ UNCHANGED <<disk, wsTok, rxTok, reloadGen, reloadLock, nDisk, late>>
      \/ /\ k = "reload" /\ ReloadStep(i)
         /\ late' = IF tasks[i].pc = 4 THEN {} ELSE late
+        /\ (tasks[i].pc # 2 => UNCHANGED inWs)
         /\ UNCHANGED <<disk, diagTok, cfgTok, rxTok, reloadGen, nDisk>>
      \/ /\ k = "save" /\ SaveStep(i)
         /\ UNCHANGED <<wmOpen, wmVer, vfs, disk, published, diagTok, wsTok, cfgTok, reloadGen, reloadLock,
@@ -411,6 +421,8 @@ Step(i) ==
         /\ UNCHANGED <<wmOpen, wmVer, vfs, disk, diagTok, wsTok, cfgTok, rxTok, reloadGen, reloadLock,
                        anR, anW, wmR, nDisk, late>>
   /\ inc' = IncAfterRemoval({u \in Uris : vfs[u] # Absent /\ vfs'[u] = Absent})
+  /\ (tasks[i].kind # "reload" => UNCHANGED inWs)
+  /\ UNCHANGED cfgLib
   /\ mainBusy' = IF tasks[i].inline /\ tasks'[i].pc = Done THEN 0 ELSE mainBusy
   /\ hist' = Append(hist, [StepLabel(i) EXCEPT !.a = "step"] @@ [woke |-> Woke(tasks, tasks'), st |-> Proj(wmOpen', vfs', published', disk)])
   /\ UNCHANGED script
@@ -434,12 +446,13 @@ Tick ==
          fired == {j \in woken : tasks[j].kind = "debounce"} IN
      /\ IF fired = {}
         THEN tasks' = ts1 /\ UNCHANGED <<reloadGen, cfgTok>>
-        ELSE /\ tasks' = Append(ts1, [NewTask("reload", None, None, FALSE, 1, 0) EXCEPT !.gen = reloadGen + 1])
+        ELSE /\ tasks' = Append(ts1, [NewTask("reload", None, IF cfgLib THEN "lib" ELSE "nolib", FALSE, 1, 0)
+                                         EXCEPT !.gen = reloadGen + 1])     \* load_emmy_config reads the file now
              /\ reloadGen' = reloadGen + 1
              /\ cfgTok' = 0
      /\ hist' = Append(hist, [a |-> "tick", ms |-> d, woke |-> Woke(tasks, tasks'), st |-> Proj(wmOpen, vfs, published, disk)])
   /\ UNCHANGED <<script, mainBusy, wmOpen, wmVer, vfs, disk, published, diagTok, wsTok, rxTok, reloadLock,
-                 anR, anW, wmR, nDisk, late, inc>>
+                 anR, anW, wmR, nDisk, late, inc, inWs, cfgLib>>
 
 Next == \/ \E m \in Msgs : Deliver(m)
         \/ \E i \in 1..Len(tasks) : Step(i)
@@ -459,13 +472,13 @@ C27 == (Quiescent /\ OnlyDocMsgs /\ nDisk = 0) =>
          \A u \in Uris : LastDocMsg(u) # 0 =>
             LET m == script[LastDocMsg(u)] IN
             IF m.kind = "close" THEN wmOpen[u] = None /\ (disk[u] = Absent => vfs[u] = Absent)
-            ELSE wmOpen[u] = m.text /\ vfs[u] = m.text
+            ELSE wmOpen[u] = m.text /\ (u \in inWs => vfs[u] = m.text)
 
 \* C29: after a reload every open file has the editor's text, every closed file its disk content
 C29 == (Quiescent /\ HadReload) =>
          \A u \in Uris :
-            IF ClientOpen(u) THEN vfs[u] = script[LastDocMsg(u)].text
-            ELSE (u \notin late => vfs[u] = disk[u])
+            IF ClientOpen(u) THEN (u \in inWs => vfs[u] = script[LastDocMsg(u)].text)
+            ELSE (u \notin late /\ u \in inWs => vfs[u] = disk[u])
 \* closed files are only required to match the disk if nothing touched the disk after the last reload
 \* read it; the harness-side evaluation uses the same predicate on the real state.
 
@@ -479,7 +492,7 @@ C30 == Quiescent =>
 Emit == (Quiescent /\ Len(script) > Cardinality(InitOpen)) =>
            PrintT(<<"SCHED", ToJson([hist |-> hist,
                                      kinds |-> [i \in 1..Len(tasks) |-> tasks[i].kind],
-                                     c27 |-> C27, c29 |-> C29, c30 |-> C30, reindex |-> EnableReindex, initOpen |-> InitOpen,
+                                     c27 |-> C27, c29 |-> C29, c30 |-> C30, reindex |-> EnableReindex, initOpen |-> InitOpen, outside |-> Outside, inWs |-> inWs,
                                      late |-> late, hadReload |-> HadReload, disk |-> disk,
                                      script |-> script])>>)
 =============================================================================
